@@ -107,11 +107,8 @@ def judge_q(upath, tfiles, fpath):
         if "NOTCONSUMED" in out or "Model checking completed" not in out:
             raise C.ToolError("C05 judge failed on %s:\n%s" % (t, out[-2500:]))
         bad = []
-        for line in out.splitlines():
-            m = RE_BADQ.match(line)
-            if m:
-                v = sorted(x.strip().strip('"') for x in m.group(5).split(",") if x.strip())
-                bad.append((t, int(m.group(1)), int(m.group(2)), int(m.group(3)), m.group(4), v))
+        for r in C.tlc_json_lines(out, "BADQ"):
+            bad.append((t, r["l"], r["h"], r["f"], r["res"], sorted(r["v"])))
         return bad, n
     bad, lines = [], 0
     with cf.ThreadPoolExecutor(max_workers=min(8, C.NCPU)) as ex:
